@@ -3,6 +3,8 @@ CONSTANTS
   NV = 2
   StabV = {2}
   HasHf = FALSE
+  Absent0 = {}
+  Admin = FALSE
   Cmds = {}
   Rewrites = FALSE
   NP = 3
